@@ -363,7 +363,7 @@ func run(tb ev.TB, c groupCase) (labels []string, nontrivial bool) {
 			cl.ForceRebalance(group)
 			endAt = time.Time{} // set when a heartbeat is answered with REBALANCE_IN_PROGRESS
 			lab["ended_by_rebalance"] = true
-		case "partition-change":
+		case "partition-change", "topic-deleted":
 			baseline := false
 			if c.WatchMs > 0 {
 				// the watcher takes its baseline when it starts: change the topic only after that
@@ -382,7 +382,13 @@ func run(tb ev.TB, c groupCase) (labels []string, nontrivial bool) {
 					time.Sleep(500 * time.Microsecond)
 				}
 			}
-			if baseline {
+			if baseline && rd.End == "topic-deleted" {
+				// the partition count of the watched topic drops to none: the metadata answer becomes UNKNOWN_TOPIC_OR_PARTITION
+				changedAt = time.Now()
+				cl.DeleteTopic(topic)
+				endAt = time.Time{}
+				lab["ended_by_topic_deletion"] = true
+			} else if baseline {
 				changedAt = time.Now()
 				cl.AddPartitions(topic, 1)
 				c.Partitions++
@@ -431,6 +437,15 @@ func run(tb ev.TB, c groupCase) (labels []string, nontrivial bool) {
 				case "rebalance":
 					if ex.ApiKey == 12 && ex.RespBody != nil && ex.RespBody["ErrorCode"] == int64(27) {
 						return ex.AnsweredAt
+					}
+				case "topic-deleted":
+					if ex.ApiKey == 3 && ex.RespBody != nil && ex.At.After(changedAt) {
+						for _, tv := range ex.RespBody["Topics"].([]any) {
+							tm := tv.(map[string]any)
+							if tm["Name"] == topic && tm["ErrorCode"] == int64(3) {
+								return ex.AnsweredAt
+							}
+						}
 					}
 				case "partition-change":
 					if ex.ApiKey == 3 && ex.RespBody != nil {
@@ -721,6 +736,9 @@ func genCase(t *rapid.T) groupCase {
 		ends := []string{"fn-return", "heartbeat-error", "rebalance", "conn-drop", "close"}
 		if c.WatchMs > 0 {
 			ends = append(ends, "partition-change", "partition-change")
+		}
+		if c.WatchMs > 0 && i == nr-1 {
+			ends = append(ends, "topic-deleted") // only as the last round: nothing can be joined for afterwards
 		}
 		rd.End = rapid.SampledFrom(ends).Draw(t, "end")
 		if rd.End == "heartbeat-error" {
